@@ -156,7 +156,7 @@ PROPS = {
         units=['parser', 'compprog', 'parser_expr', 'parser_unary', 'parser_member', 'interp_vm_g1', 'interp_vm_g2', 'interp_vm_g3', 'interp_vm_g4', 'interp_vm_g6', 'interp_vm_g7'],
         assumptions=['operators are functions of their operands (op2 uninterpreted; purity by Rust typing)'],
         level_text="At every fold site under contract the value computed at compile time is proved to be the one the emitted instruction computes: binary levels (op2(op, lhs, rhs) for the same op), ternary (same truthiness; a failed constant condition is the result), index, field access (only on map / object constants, only when the access succeeds), list literals and from_children* (fold iff all children constant), calls (check_for_const: replaced by a constant exactly when running the call's OWN code with the compile-time bindings succeeds); the VM arms for the same instructions (operand order, MkDict last-entry-wins, field before method).",
-        not_covered=['now() / zero-argument timestamp() frozen when part of a call chain (F14, unrepaired): which functions the compile-time bindings contain is not decided by any contract', 'the map-literal resolver closure (closure body dropped: which duplicate key wins in a folded map literal is assumed)', 'unbound variables inside folded macro bodies'],
+        not_covered=['now() / zero-argument timestamp() frozen when part of a call chain (F14, unrepaired): which functions the compile-time bindings contain is not decided by any contract', 'unbound variables inside folded macro bodies'],
     ),
     'C01': dict(
         units=ALL_UNITS, safety_only=True,
@@ -209,7 +209,7 @@ PROPS = {
     'C06': dict(
         units=['value_coll', 'value_arith', 'interp_vm_g4', 'interp_vm_g5', 'interp_vm_g6', 'interp_vm_g7', 'wiring', 'parser_member', 'compprog', 'parser_unary'],
         assumptions=['HashMap<String,_> key model (axiom), Vec<CelValue>.len() <= isize::MAX (allocation limit)'],
-        not_covered=['the map-literal resolver closure (folded maps): assumed; the map literal arm itself, the VM MkDict arm and from_children_w_bytecode ARE under contract', 'list membership is stated over PartialEq for CelValue, whose own structural impl is outside this unit'],
+        not_covered=['that the run-time entries the VM pops are the constants the compiler folds (the two lemmas of unit parser_unary state: IF the pairs are popped last-written first, the folded map satisfies the MkDict arm postcondition and vice versa); Range::step_by is a materialized stand-in (assumed)', 'list membership is stated over PartialEq for CelValue, whose own structural impl is outside this unit'],
     ),
     'C07': dict(
         units=['macros'],
@@ -225,7 +225,7 @@ PROPS = {
     'C04': dict(
         units=['value_cmp', 'value_arith', 'builtins'],
         not_covered=['the laws of the double order (IEEE comparison is uninterpreted: only that doubles are compared lhs to rhs is pinned)',
-                     'map equality (HashMap iteration / remove have no Verus support: that match arm is dropped, see rewrites); list equality IS under contract for lists whose element pairs are decided by the scalar rules (different lengths are never equal; equal exactly when every pair at the same position is), for lists holding doubles, containers, dyn objects or failures only "bool or error"; std::iter::zip is a materialized stand-in (pairs of equal indices in order, up to the shorter: assumed)',
+                     'list and map equality ARE under contract for containers whose element / value pairs are decided by the scalar rules (lists: different lengths are never equal, equal exactly when every pair at the same position is; maps: always a bool, different key sets are never equal, equal exactly when every value pair under the same key is); for containers holding doubles, containers, dyn objects or failures only "bool or error" (maps: bool); std::iter::zip and HashMap::into_iter are materialized stand-ins (zip: pairs of equal indices in order up to the shorter; into_iter: every entry once in an unspecified order), HashMap clone / remove / is_empty are trampolines with the assumed std behaviour',
                      'laws of the string/bytes/timestamp/duration orders are std\'s and chrono\'s Ord (assumed)'],
         assumptions=['sort: the comparator is ord; that slice::sort_by with a total order returns an ordered permutation is std\'s contract (not under contract here)'],
     ),
